@@ -278,22 +278,52 @@ def register2(E):
     def _(e, c, a): return Agg([z3.Int('hash_seed')], 'RandomState')
     @R(r'as BuildHasher>::build_hasher$')
     def _(e, c, a): return HasherM(deref(a[0]).f[0])
-    @R(r'^<\[u8\] as Hash>::hash::<|^<BStr as Hash>::hash::<|as Hash>::hash::<')
-    def _(e, c, a):
-        v = deref(a[0]); h = deref(a[1])
-        if isinstance(v, (Str, SliceRef)):
-            l, lo, hi = sl(v); h.log.append(('len', hi - lo)); h.log.extend(l[lo:hi])
-        elif isinstance(v, int) or z3.is_bv(v): h.log.append(v)
+    # The hasher state is the flat byte stream fed to it (what any streaming Hasher such as SipHash sees); finish() is an
+    # uninterpreted function of (seed, stream): equal streams hash equally, different streams may collide.
+    def int_bytes(v, nbytes):
+        if isinstance(v, bool): v = int(v)
+        if isinstance(v, int): return [(v >> (8 * i)) & 0xff for i in range(nbytes)]
+        if z3.is_bv(v):
+            w = v.size()
+            return [z3.Extract(8 * i + 7, 8 * i, v) if 8 * i + 7 < w else 0 for i in range(nbytes)]
+        raise EngineError(f'hash of {v!r}')
+    def hash_value(e, v, h):
+        v = deref(v)
+        while isinstance(v, Agg) and len(v.f) == 1 and v.ty not in ('arr', 'tup'): v = deref(v.f[0])
+        if isinstance(v, (Str, SliceRef)) or (isinstance(v, Vec) and v.ty in ('String', 'BString', 'Vec')):
+            l, lo, hi = sl(v); h.log.extend(int_bytes(hi - lo, 8)); h.log.extend(l[lo:hi])
+            if isinstance(v, Str) or (isinstance(v, Vec) and v.ty == 'String'): h.log.append(0xff)
+        elif isinstance(v, (int, bool)) or z3.is_bv(v): h.log.extend(int_bytes(v, (v.size() // 8) if z3.is_bv(v) else 8))
+        elif isinstance(v, Agg) and v.ty in ('tup', 'arr'):
+            for x in v.f: hash_value(e, x, h)
         else: raise EngineError(f'hash of {v!r}')
+    @R(r'as Hash>::hash::<')
+    def _(e, c, a):
+        m_ = re.match(r'^<(u8|u16|u32|u64|usize|i32|i64) as Hash>', c)
+        h = deref(a[1])
+        if m_:
+            v = deref(a[0]); h.log.extend(int_bytes(v, {'u8': 1, 'u16': 2, 'u32': 4, 'i32': 4}.get(m_.group(1), 8)))
+        else: hash_value(e, a[0], h)
         return UNIT
-    @R(r'as Hasher>::write_usize$|as Hasher>::write_u8$')
-    def _(e, c, a): deref(a[0]).log.append(('n', a[1])); return UNIT
+    @R(r'as Hasher>::write_(usize|u64|i64|isize)$')
+    def _(e, c, a): deref(a[0]).log.extend(int_bytes(a[1], 8)); return UNIT
+    @R(r'as Hasher>::write_(u32|i32)$')
+    def _(e, c, a): deref(a[0]).log.extend(int_bytes(a[1], 4)); return UNIT
+    @R(r'as Hasher>::write_(u8|i8)$')
+    def _(e, c, a): deref(a[0]).log.extend(int_bytes(a[1], 1)); return UNIT
+    @R(r'as Hasher>::write_u16$')
+    def _(e, c, a): deref(a[0]).log.extend(int_bytes(a[1], 2)); return UNIT
+    @R(r'as Hasher>::write$')
+    def _(e, c, a): l, lo, hi = sl(a[1]); deref(a[0]).log.extend(l[lo:hi]); return UNIT
     @R(r'as Hasher>::finish$')
     def _(e, c, a):
-        h = deref(a[0]); bs = [x for x in h.log if not isinstance(x, tuple)]; shape = tuple(x for x in h.log if isinstance(x, tuple))
-        key = (len(bs), shape)
+        h = deref(a[0]); bs = h.log
         f = hash_uf(len(bs))
-        return f(h.seed + (hash(shape) % 1000003), *[bv8(b) for b in bs])
+        return f(h.seed, *[bv8(b) for b in bs])
+    @R(r'as BuildHasher>::hash_one::<')
+    def _(e, c, a):
+        h = HasherM(deref(a[0]).f[0]); hash_value(e, a[1], h)
+        return hash_uf(len(h.log))(h.seed, *[bv8(b) for b in h.log])
 
     # ---- hashbrown::HashTable
     @R(r'^(hashbrown::)?HashTable::<.*>::new$')
